@@ -42,27 +42,29 @@ def sh(cmd, cwd=None, timeout=1800, env=None, stdin=None):
 # ---------------------------------------------------------------------------------------------
 # translators
 
-def build_go2coq(force=False):
-    exe = os.path.join(BUILD, "go2coq")
+def regen(only):
+    """Run the named translators (tools/go2coq/<name>/) against the current /repo tree; each rewrites
+    its coq/gen/*.v (only when the content changed). Returns (ok, log)."""
     src = os.path.join(ROOT, "tools", "go2coq")
-    newest = max(os.path.getmtime(os.path.join(src, f)) for f in os.listdir(src))
-    if force or not os.path.exists(exe) or os.path.getmtime(exe) < newest:
-        os.makedirs(BUILD, exist_ok=True)
-        rc, out = sh(["go", "build", "-o", exe, "."], cwd=src, env=go_env(), timeout=600)
-        if rc != 0:
-            raise RuntimeError("cannot build go2coq:\n" + out)
-    return exe
-
-
-def regen(only=None):
-    """Run the translators against the current /repo tree. Returns (ok, log)."""
-    exe = build_go2coq()
-    cmd = [exe, "-repo", REPO, "-out", os.path.join(COQ, "gen")]
-    if only:
-        cmd += ["-only", ",".join(only)]
     os.makedirs(os.path.join(COQ, "gen"), exist_ok=True)
-    rc, out = sh(cmd, timeout=300)
-    return rc == 0, out
+    os.makedirs(BUILD, exist_ok=True)
+    allok, logs = True, []
+    for name in only:
+        exe = os.path.join(BUILD, "go2coq-" + name)
+        rc, out = sh(["go", "build", "-o", exe, "./" + name], cwd=src, env=go_env(), timeout=600)
+        if rc != 0:
+            allok = False
+            logs.append("cannot build translator %s:\n%s" % (name, out))
+            continue
+        rc, out = sh([exe, "-repo", REPO, "-out", os.path.join(COQ, "gen")], timeout=300)
+        logs.append(out)
+        allok = allok and rc == 0
+    return allok, "\n".join(logs)
+
+
+def all_translators():
+    src = os.path.join(ROOT, "tools", "go2coq")
+    return sorted(d for d in os.listdir(src) if os.path.isdir(os.path.join(src, d)) and d != "g2c")
 
 
 # ---------------------------------------------------------------------------------------------
@@ -232,17 +234,24 @@ def run_model(exe, cases_path, timeout=3000, shards=None):
 # ---------------------------------------------------------------------------------------------
 # harness
 
-def build_harness():
-    """Rebuild the harness from the CURRENT /repo working tree with hooks on (tag verif)."""
+def build_harness(name):
+    """Rebuild harness/<name> from the CURRENT /repo working tree with hooks on (tag verif).
+    The module file is generated so that github.com/itchyny/gojq resolves to REPO."""
     h = os.path.join(ROOT, "harness")
     shutil.copy(os.path.join(REPO, "go.sum"), os.path.join(h, "go.sum"))
-    exe = os.path.join(BUILD, "harness")
-    rc, out = sh(["go", "build", "-tags", "verif", "-o", exe, "."], cwd=h, env=go_env(), timeout=1200)
+    gomod = ("module verifharness\n\ngo 1.24.0\n\nrequire github.com/itchyny/gojq v0.0.0\n\n"
+             "replace github.com/itchyny/gojq => %s\n" % REPO)
+    p = os.path.join(h, "go.mod")
+    if not os.path.exists(p) or open(p).read() != gomod:
+        open(p, "w").write(gomod)
+    exe = os.path.join(BUILD, "harness-" + name)
+    rc, out = sh(["go", "build", "-tags", "verif", "-o", exe, "./" + name], cwd=h, env=go_env(), timeout=1200)
     return (exe if rc == 0 else None), out
 
 
-def run_harness(stream, seed, n, tier, extra=None, timeout=3000, name=None):
-    exe = os.path.join(BUILD, "harness")
+def run_harness(prog, stream, seed, n, tier, extra=None, timeout=3000, name=None):
+    """Run build/harness-<prog> <stream>; cases go to build/cases/<name>.cases"""
+    exe = os.path.join(BUILD, "harness-" + prog)
     name = name or stream
     cases = os.path.join(BUILD, "cases", name + ".cases")
     stats = os.path.join(BUILD, "cases", name + ".stats.json")
